@@ -204,6 +204,16 @@ func (r *Reader) Read(a []byte) (n int, err error) {
 	if err == nil && int64(n) == r.length-r.position {
 		err = io.EOF
 	}
+	if err == nil && n == 0 && len(a) > 0 {
+		// the piece has gone away since we requested it: don't
+		// trust the cached request, and fail if the torrent is dead
+		r.requestedIndex = -1
+		select {
+		case <-t.Done:
+			err = ErrTorrentDead
+		default:
+		}
+	}
 
 	if err != nil {
 		r.request(-1, -1)
